@@ -106,6 +106,7 @@ def c11(A, ctx, tier):
     plumb.r_who(A, ctx, dict(floor=13))
     warm.r_none_deref(A, ctx, dict(floor=1))
     misc.r_grporder(A, ctx, dict(floor=6))
+    plumb.r_rowfilter(A, ctx, dict(floor=10))
     ctx.assume("stationarity of the fitted coefficients is C01's business; the "
                "docstring-formula <-> class correspondence is not decided")
     return dict(explanation="constructor-argument plumbing of the 12 estimators: every "
